@@ -633,3 +633,34 @@ def r06k(ctx):
         else:
             ctx.ok(cid, dv.cls.module.loc(dv.node), f"divisions come from self.{param} only")
     ctx.floor("index-replacing operators", n, 1)
+
+
+@rule(
+    "R06l",
+    ["C06", "C17", "C11"],
+    """DIVISIONS OF A FUSED READ ARE ADDRESSED THROUGH ITS BUCKETS ONLY: FusedIO groups the partitions of a source into buckets of absolute
+    partition numbers; a partition selection leaves buckets that need not start at 0 nor end at the last partition. Every boundary of the
+    fused node is `divisions[<bucket entry>]` / `divisions[<last bucket's last entry> + 1]` - an index taken from `_fusion_buckets`.
+    A constant index (`divisions[-1]`, `divisions[0]`) is the boundary of the WHOLE source: for a selected range the last division then
+    claims rows up to the end of the file set, and a persisted / re-imported cut keeps that wrong range.""",
+)
+def r06l(ctx):
+    model = ctx.model
+    c = model.cls("FusedIO", "io.io")
+    fn = model.method(c, "_divisions", own=True).node
+    defs = flow.Defs(fn)
+    src = [d for d in ast.walk(fn) if isinstance(d, ast.Assign) and "_divisions()" in ast.unparse(d.value)]
+    if not src or not isinstance(src[0].targets[0], ast.Name):
+        raise AnalysisError("anchor vanished: the source divisions local of FusedIO._divisions")
+    dv = src[0].targets[0].id
+    n = 0
+    for sub in (x for x in ast.walk(fn) if isinstance(x, ast.Subscript) and isinstance(x.ctx, ast.Load) and isinstance(x.value, ast.Name) and x.value.id == dv):
+        n += 1
+        idx = ast.unparse(defs.expand(sub.slice, at=sub))
+        loopvar_ok = any(isinstance(y, ast.Name) and any("_fusion_buckets" in ast.unparse(g.iter) for comp in ast.walk(fn) if isinstance(comp, (ast.ListComp, ast.GeneratorExp)) for g in comp.generators if ast.unparse(g.target) == y.id) for y in ast.walk(sub.slice))
+        cid = f"io.io.FusedIO._divisions:index:{ast.unparse(sub)[:50]}"
+        if "_fusion_buckets" in idx or loopvar_ok:
+            ctx.ok(cid, c.module.loc(sub), "indexed through the fusion buckets")
+        else:
+            ctx.bad(cid, c.module.loc(sub), f"`{ast.unparse(sub)}` addresses the source's divisions with an index that does not come from `_fusion_buckets`: for a fused read of SELECTED partitions that is a boundary of the whole source, so the fused node claims a range beyond its last partition (loc / repartition / a persisted cut trust it)")
+    ctx.floor("division look-ups of FusedIO._divisions", n, 2)
